@@ -837,6 +837,10 @@ class X12ContextReader(object):
                     self._reset_counter_to_gs_counts()
                     tpath = '/ISA_LOOP/GS_LOOP/GS'
                     self.x12_map_node = cur_map.getnodebypath(tpath)
+                    # The walker is not asked about GS: report the loops it closes and opens
+                    if orig_node.parent.id == 'GS_LOOP':
+                        pop_loops = [orig_node.parent]
+                    push_loops = [self.x12_map_node.parent]
                     #self.walker.forceWalkCounterToLoopStart('/ISA_LOOP/GS_LOOP', '/ISA_LOOP/GS_LOOP/GS')
                 elif seg_id == 'BHT':
                     if vriic in ('004010X094', '004010X094A1'):
